@@ -3,6 +3,7 @@ import HappyProofs.C05.Idle
 import HappyProofs.C05.Reject
 import HappyProofs.C05.Full
 import HappyProofs.C05.Stateful
+import HappyProofs.C05.StatefulR
 import HappyModel.C05.Driver
 /-!
 # C05 — property theorems
@@ -24,7 +25,10 @@ The main clause: `par_eq_seq_full` (`Full.lean`, every entity-local stateful han
 `par_eq_seq_partial` (below: emissions a function of the delivered event), and in `Stateful.lean`
 `par_eq_seq_tie_commutative` (stateful handlers that commute on same-timestamp deliveries to one entity) and
 `par_eq_seq_no_ties` / `par_eq_seq_no_ties_observed` (arbitrary stateful handlers, no entity receives two
-deliveries with one timestamp: logs equal), with `seq_final_state` for the final entity states.
+deliveries with one timestamp: logs equal), with `seq_final_state` for the final entity states, and in
+`Prefix.lean` `agree_before_first_tie` (any handler: the runs agree up to the first same-timestamp group).
+`StatefulR.lean` has the same theorems for the coordinator with the code's creation indices (`coordLoopR`,
+what the driver's `runs` mode executes for the stateful harness entities) and `ruleHandler_tieCommutative`.
 -/
 namespace HappyModel.C05
 
